@@ -1,6 +1,7 @@
 """C01 — the interpreter computes Michelson results.  Well-typed programs over the modelled core are run on the
 real instruction classes, on the Lean mirror `Impl.exec` and on the Lean reference semantics `Spec.eval`."""
 import json
+import re
 
 from harness import gen_interp, interp_run, mich
 from translator import extract
@@ -36,8 +37,24 @@ def parse_model(out):
     return 'ok', items
 
 
+def binarize(m):
+    """`pair a b c` / `Pair x y z` inside code (lambda bodies are rendered back as written) -> nested binary form"""
+    if isinstance(m, list):
+        return [binarize(x) for x in m]
+    if isinstance(m, dict) and 'prim' in m:
+        args = [binarize(a) for a in m.get('args', [])]
+        if m['prim'] in ('pair', 'Pair') and len(args) > 2 and not m.get('annots'):
+            rest = binarize({'prim': m['prim'], 'args': args[1:]})
+            args = [args[0], rest]
+        out = dict(m)
+        if args:
+            out['args'] = args
+        return out
+    return m
+
+
 def norm_val(v):
-    return mich.normalize(v)
+    return mich.normalize(binarize(v))
 
 
 def compare_outcomes(real, model, expect_ty=None):
@@ -73,6 +90,7 @@ def run(ctx, prop=PROP):
     for i in range(n_prog):
         code, st = g.program(ctx.rng.choice([3, 5, 8, 12, 16]))
         progs.append((code, st, gen_env(ctx.rng)))
+    progs += edge_programs(g, ctx.rng, ctx.tier)
     lines = []
     for code, st, env in progs:
         line = f'{FUEL} | {env_words(env)} | {mich.to_line(code)}'
@@ -82,6 +100,8 @@ def run(ctx, prop=PROP):
         lines.append('type ' + line)
     model = ctx.model(lines, driver=prop)
     ctx.extra['instruction_mix'] = dict(sorted(g.used.items()))
+    ctx.extra['boundary_shapes'] = dict(sorted(g.shapes.items()))
+    n_shrunk = 0
     for i, (code, st, env) in enumerate(progs):
         text = json.dumps(code)
         control = any(k in text for k in ('"IF', '"LOOP', '"ITER', '"MAP', '"DIP', '"EXEC'))
@@ -89,6 +109,8 @@ def run(ctx, prop=PROP):
         ctx.case({'code': code if size < 10 else f'<{size} instrs>', 'env': env}, nontrivial=control and (size >= 6 or (prop == 'C02' and ('"MAP"' in text or '"ITER"' in text))))
         real = interp_run.run_real(code, env)
         ctx.count('outcome', real[0])
+        for prim in sorted(instrs_in(code)):      # number of programs each instruction form occurs in
+            ctx.count('programs-with-instruction', prim)
         for kt in map_key_kinds(code):
             ctx.count('map-key-type', kt)
         ctx.count('size', min(size // 5 * 5, 60))
@@ -98,9 +120,14 @@ def run(ctx, prop=PROP):
             impl_m, spec_m, specg_m = (parse_model(model[4 * i + k]) for k in range(3))
             # the generator's own type tracking against the Lean type checker (validates both)
             tline = model[4 * i + 3]
-            want = 'ok' + ''.join(' | ' + mich.to_line(gen_interp.ty_mich(t)) for t in st)
-            if tline != want and tline != 'failed':
-                ctx.mismatch('typing', {'code': code}, want, tline)
+            if st is None:      # edge stream: arguments outside the typing rule; only the mirror is compared
+                ctx.count('edge-stream', 'ill-typed' if tline == 'ill-typed' else 'typed')
+                if tline != 'ill-typed':
+                    ctx.mismatch('typing', {'code': code}, 'ill-typed', tline)
+            else:
+                want = 'ok' + ''.join(' | ' + mich.to_line(gen_interp.ty_mich(t)) for t in st)
+                if tline != want and tline != 'failed':
+                    ctx.mismatch('typing', {'code': code}, want, tline)
             d = compare_outcomes(drop_fw(real), drop_fw(impl_m))
             if d:
                 ctx.mismatch('impl-mirror', {'code': code, 'env': env}, f'{d}: {str(real)[:300]}', str(impl_m)[:300])
@@ -123,12 +150,19 @@ def run(ctx, prop=PROP):
         if spec_m is not None and spec_m[0] != 'err':
             d2 = compare_outcomes(drop_fw(real), drop_fw(spec_m))
             if d2 and (('types' in d2) == (prop == 'C02')):
+                small, real_s, spec_s = code, real, spec_m
+                if n_shrunk < 4:      # minimise the first few failing programs (each step re-runs both sides)
+                    n_shrunk += 1
+                    small, real_s, spec_s = shrink(ctx, prop, code, env, real, spec_m)
                 if specg_m[0] == 'err':
                     key = 'MAP-over-empty-collection-with-type-changing-body'
+                elif real[0] == 'err' and prop == 'C01':
+                    # the reference defines a result, the instruction raises: keyed by the raising instruction and its message
+                    key = 'raises:' + raising(str(real[1]))[:100]
                 else:
-                    key = ('type-differs:' if prop == 'C02' else 'result-differs:') + mich.to_line(code)[:120]
-                ctx.violation(key, f'{d2}: real {str(real)[:200]} reference {str(spec_m)[:200]}',
-                              {'code': code, 'env': env, 'real': str(real), 'reference': str(spec_m)})
+                    key = ('type-differs:' if prop == 'C02' else 'result-differs:') + mich.to_line(small)[:120]
+                ctx.violation(key, f'{d2}: program {show_code(small)} real {str(real_s)[:200]} reference {str(spec_s)[:200]}',
+                              {'code': code, 'minimal': small, 'env': env, 'real': str(real), 'reference': str(spec_m)})
         elif spec_m is not None:
             ctx.count('spec', 'stuck-or-fuel')
         if spec_m is None:
@@ -140,6 +174,112 @@ def run(ctx, prop=PROP):
                     ctx.violation('type-differs:' + mich.to_line(code)[:120], f'runtime types {got} expected {want}', {'code': code, 'env': env})
             if real[0] == 'err' and prop == 'C01' and 'overflow' not in str(real[1]) and 'natural' not in str(real[1]):
                 ctx.violation('wellTyped-program-errors:' + mich.to_line(code)[:120], f'well-typed program fails with {real[1]}', {'code': code, 'env': env})
+
+
+def raising(msg):
+    """`DIP -> IF -> GET -> expected one of ['pair'], got int` -> `GET -> expected one of ['pair']` (the instruction that raises)"""
+    parts = msg.split(' -> ')
+    k = max([j for j, x in enumerate(parts[:-1]) if x.replace('_', '').isupper()] or [0])
+    return re.sub(r", got \w+", '', ' -> '.join(parts[k:]))
+
+
+def show_code(code):
+    try:
+        from pytezos.michelson.format import micheline_to_michelson
+        return micheline_to_michelson(code, inline=True)[:400]
+    except Exception:      # noqa: display only
+        return json.dumps(code)[:400]
+
+
+def deviates(ctx, prop, code, env):
+    """(description, real, reference) if the real run of `code` deviates from a defined reference result, else None"""
+    line = f'{FUEL} | {env_words(env)} | {mich.to_line(code)}'
+    out = ctx.model(['spec ' + line], driver=prop)
+    if out is None:
+        return None
+    spec_m = parse_model(out[0])
+    if spec_m[0] == 'err':
+        return None
+    real = interp_run.run_real(code, env)
+    d = compare_outcomes(drop_fw(real), drop_fw(spec_m))
+    return (d, real, spec_m) if d and (('types' in d) == (prop == 'C02')) else None
+
+
+def shrink(ctx, prop, code, env, real, spec_m):
+    """shortest failing prefix of the top-level sequence, then greedy removal of single instructions (top level and inside
+    the bodies of the last instruction); a candidate counts only if the reference still defines a result (so it is well-typed)"""
+    best = (code, real, spec_m)
+    if not isinstance(code, list):
+        return best
+    for k in range(1, len(code)):
+        r = deviates(ctx, prop, code[:k], env)
+        if r:
+            best = (code[:k], r[1], r[2])
+            break
+    budget = 60
+    changed = True
+    while changed and budget > 0:
+        changed = False
+        cur = best[0]
+        for j in range(len(cur) - 1):
+            budget -= 1
+            cand = cur[:j] + cur[j + 1:]
+            r = deviates(ctx, prop, cand, env)
+            if r:
+                best = (cand, r[1], r[2])
+                changed = True
+                break
+    return best
+
+
+def edge_programs(g, rng, tier):
+    """arguments at and beyond the edges of the typing rules (`PAIR 0/1`, `UNPAIR n` / `GET n` / `UPDATE n` past the end
+    of the comb, on non-pairs): ill-typed, so only the mirror's literal behaviour is compared with the real code"""
+    P = lambda prim, *args: {'prim': prim, 'args': list(args)} if args else {'prim': prim}
+    I = lambda n: {'int': str(n)}
+    progs = []
+    shapes = [[('int',), ('nat',)], [('int',), ('nat',), ('string',)], [('pair', ('int',), ('unit',)), ('nat',), ('bool',), ('bytes',)]]
+    for leaves in shapes:
+        t = gen_interp.comb_of(leaves)
+        k = len(leaves)
+        push = lambda: P('PUSH', gen_interp.ty_mich(t), g.gen_value(t, depth=3))
+        for n in list(range(k + 1, k + 3)) + [0, 1]:
+            progs.append(([push(), P('UNPAIR', I(n))], None))
+        for n in range(2 * k - 1, 2 * k + 3):
+            progs.append(([push(), P('GET', I(n))], None))
+            progs.append(([push(), P('PUSH', P('string'), {'string': 'e'}), P('UPDATE', I(n))], None))
+            progs.append(([push(), push(), P('UPDATE', I(n))], None))
+        for n in (0, 1, 3, 4):
+            progs.append(([push(), P('UNIT'), P('PAIR', I(n))], None))
+    for n in (1, 2, 3):
+        progs.append(([P('UNIT'), P('GET', I(n))], None))
+        progs.append(([P('UNIT'), P('UNIT'), P('UPDATE', I(n))], None))
+        progs.append(([P('UNIT'), P('UNPAIR', I(n + 1))], None))
+    return [(code, st, gen_env(rng)) for code, st in progs if gen_interp.well_typed_edge(code) is False]
+
+
+def instrs_in(code):
+    """instruction forms occurring in a program; the forms that share a prim are told apart by their arguments"""
+    out = set()
+
+    def walk(x):
+        if isinstance(x, list):
+            for y in x:
+                walk(y)
+        elif isinstance(x, dict) and 'prim' in x:
+            prim, args = x['prim'], x.get('args', [])
+            if prim == 'PUSH':
+                out.add('PUSH')
+                return
+            if prim.isupper() or prim.replace('_', '').isupper():
+                if prim in ('PAIR', 'UNPAIR', 'GET', 'UPDATE', 'DUP', 'DROP', 'DIP') and args and isinstance(args[0], dict) and 'int' in args[0]:
+                    out.add(prim + ' n')
+                else:
+                    out.add(prim)
+            for y in args:
+                walk(y)
+    walk(code)
+    return out
 
 
 def map_key_kinds(code):
